@@ -76,7 +76,7 @@ EXTENDS Integers, Sequences, FiniteSets, TLC
 
 CONSTANTS NS,               \* number of sessions
           NO,               \* number of rows of T
-          MaxOps,           \* program length (C / X not counted)
+          MaxOps, MaxOpsN,  \* program length of session 1 / of the other sessions (C / X not counted)
           KA, KB,           \* sets of kinds the attributes a and b may have (one combination is chosen in Init)
           Modes1, ModesN,   \* modes of session 1 / of the other sessions: subsets of {"opt", "imm", "ser"}:
                             \* db_session(), (immediate=True), (serializable=True | optimistic=False)
@@ -128,6 +128,7 @@ AllProgOps ==
           \cup {Op(k, 0, "-", "-") : k \in {"Q", "RC", "LC", "F", "CM"}} : op.k \in OpSet1 \cup OpSetN}
 OpSetOf(s) == IF s = 1 THEN OpSet1 ELSE OpSetN
 ModesOf(s) == IF s = 1 THEN Modes1 ELSE ModesN
+MaxOpsOf(s) == IF s = 1 THEN MaxOps ELSE MaxOpsN
 ProgOps(s) == {op \in AllProgOps : op.k \in OpSetOf(s)}
 EndOps(s)  == {Op("C", 0, "-", "-")} \cup (IF "X" \in OpSetOf(s) THEN {Op("X", 0, "-", "-")} ELSE {})
 
@@ -377,7 +378,7 @@ Exec(s, op, how) ==
    not available, the step only records the blocked acquirer (TryBegin); otherwise it runs. *)
 Step(s, op) ==
     /\ result[s] = "running" /\ pending[s] = NoOp
-    /\ op \in EndOps(s) \/ (op \in ProgOps(s) /\ pc[s] < MaxOps)
+    /\ op \in EndOps(s) \/ (op \in ProgOps(s) /\ pc[s] < MaxOpsOf(s))
     /\ OpEnabled(Sess(s), op)
     /\ pc' = [pc EXCEPT ![s] = IF op \in ProgOps(s) THEN @ + 1 ELSE @]
     /\ IF NeedsLock(s, Sess(s), op) /\ ~(lockHolder = 0 /\ preHolder = 0)
